@@ -845,9 +845,16 @@ pub fn run_thr(case: &Case, dir: PathBuf) -> Outcome {
         }
         let f = close_failure.unwrap_or_else(|| "panic while closing".into());
         let mut o = Outcome::ok(stats, rec.hash);
+        // t0 waiting in final_join means drop() has returned: then the stuck threads are
+        // background workers that outlive the last handle
+        let what = if f.contains("t0:Blocked(\"final_join\")") {
+            "the last database handle was dropped (drop returned) but a background worker thread is still alive and never stops"
+        } else {
+            "dropping the last database handle never completes"
+        };
         o.violation = Some(Violation::new(
             "no-progress",
-            format!("dropping the last database handle never completes: {f}{}", if fault_desc.is_empty() { String::new() } else { format!(" (after the injected {fault_desc})") }),
+            format!("{what}: {f}{}", if fault_desc.is_empty() { String::new() } else { format!(" (after the injected {fault_desc})") }),
         ));
         o.schedule = Some(rec.choices);
         o.shape = crate::rng::mix(rec.hash);
